@@ -33,6 +33,10 @@ func engineMain(prop, tier string, seed uint64, out, replay string) error {
 		scens = genC04(r, tier, st)
 	case "C05":
 		scens = genC05(r, tier, st)
+	case "C03":
+		scens = genC03(r, tier, st)
+	case "C10":
+		scens = genC10(r, tier, st)
 	default:
 		return fmt.Errorf("engine family has no generator for %q", prop)
 	}
@@ -376,5 +380,5 @@ func genC18(r *rng, tier string, st *stats) []taggedScen {
 }
 
 func engineImports(prop string) string {
-	return "Base Script FlowTable Engine EngineCorr SpecC18 Lifecycle SpecEngine"
+	return "Base Script FlowTable Engine Flatten EngineCorr SpecC18 Lifecycle SpecEngine SpecRoute"
 }
